@@ -161,8 +161,9 @@ def compile_expr(e, bindings):  # noqa: C901
         return lambda env: fn(*[x(env) for x in ps])
     if isinstance(e, TypeCast):
         c = rec(e.inner_expr)
-        ty = np.dtype(e.dtype).type
-        return lambda env: ty(c(env))
+        dt = np.dtype(e.dtype)
+        # C-style conversion (wraps for narrowing integer casts), as ndarray.astype does
+        return lambda env: np.asarray(c(env)).astype(dt)[()]
     if isinstance(e, Reduce):
         inner = rec(e.inner_expr)
         names = list(e.bounds)
